@@ -188,8 +188,9 @@ def build_context(tabs, layout, lazy=True, knobs=None):
 # programs
 # ---------------------------------------------------------------------------------------------
 class Prog:
-    def __init__(self, name, fn, order_free=False, index_free=False, tags=(), dask_only=False, needs_known=False, needs_range=False, undefined=False):
+    def __init__(self, name, fn, order_free=False, index_free=False, tags=(), dask_only=False, needs_known=False, needs_range=False, undefined=False, only=None):
         self.name, self.fn = name, fn
+        self.only = set(only) if only else None  # property ids whose checks use this program (None: all)
         self.undefined = undefined  # the program's result is not defined by dask-expr's documented semantics (skipped by value oracles)
         self.order_free = order_free  # row order undefined by the program (shuffles, merges, unique ...)
         self.index_free = index_free  # index labels undefined (reset_index over partitions, merges)
@@ -575,9 +576,9 @@ P("pipe_mean_frame_filter", lambda t: t.df[t.df.d][["b", "u"]].mean())
 P("nrw_filter_filter_cumsum", lambda t: (lambda d2: d2[d2.u.cumsum() > 20])(t.df[t.df.a > 0]), tags={"nonrowwise"})
 P("nrw_filter_filter_shift", lambda t: (lambda d2: d2[d2.u.shift(1) > 5])(t.df[t.df.a > 0]), tags={"nonrowwise", "window"})
 P("nrw_filter_filter_mean", lambda t: (lambda d2: d2[d2.u > d2.u.mean()])(t.df[t.df.a > 0]), tags={"nonrowwise"})
-P("nrw_sort_cumsum", lambda t: (lambda s_: s_[s_.u.cumsum() > 30])(t.df.sort_values("b")), tags={"nonrowwise", "sort"})
+P("nrw_sort_cumsum", lambda t: (lambda s_: s_[s_.u.cumsum() > 30])(t.df.assign(k=(t.df.u * 7) % 23).sort_values("k")), tags={"nonrowwise", "sort"})  # k: unique, no nulls, not monotone
 P("nrw_sort_shift", lambda t: (lambda s_: s_[s_.u.shift(1) > 9])(t.df.sort_values("u", ascending=False)), tags={"nonrowwise", "sort", "window"})
-P("nrw_setindex_cumsum", lambda t: (lambda x: x[x.a.cumsum() > 6])(t.df.set_index("b") if t.lazy else t.df.set_index("b").sort_index(kind="stable")), tags={"nonrowwise", "sort"})
+P("nrw_setindex_cumsum", lambda t: (lambda x: x[x.a.cumsum() > 6])(t.df.assign(k=(t.df.u * 7) % 23).set_index("k") if t.lazy else t.df.assign(k=(t.df.u * 7) % 23).set_index("k").sort_index(kind="stable")), tags={"nonrowwise", "sort"})
 P("nrw_repart_cumsum", lambda t: (lambda x: x[x.u.cumsum() > 20])(t.df.repartition(npartitions=2) if t.lazy else t.df), tags={"nonrowwise"})
 P("nrw_assign_cumsum", lambda t: (lambda x: x[x.z.cumsum() > 20])(t.df.assign(z=t.df.u + 1)), tags={"nonrowwise"})
 P("nrw_dropna_cumsum", lambda t: (lambda x: x[x.u.cumsum() > 20])(t.df.dropna(subset=["b"])), tags={"nonrowwise"})
@@ -598,20 +599,20 @@ P("vc_rename_series_filter", lambda t: (lambda s_: s_[s_ > 5])(t.df.u.rename("v"
 
 # operations whose operands have different rows (aligned by index) or include a broadcast reduction: len() / divisions
 P("align_filtered_plus_unfiltered", lambda t: t.df.u[t.df.u > 5] + t.df.u, tags={"align"}, needs_range=True)  # duplicate labels: alignment is a per-partition product
-P("align_bcast_minus_frame", lambda t: t.df[["u", "a"]].max() - t.df[["u", "a"]], tags={"align"})
+P("align_bcast_minus_frame", lambda t: t.df[["b", "f"]].astype("float64").max() - t.df[["b", "f"]].astype("float64"), tags={"align"})
 P("align_series_bcast_minus", lambda t: t.df.u.mean() - t.df.u, tags={"align"})
 P("align_two_filters", lambda t: t.df.u[t.df.a > 0] * t.df.f[t.df.u > 9], tags={"align"}, needs_range=True)
 
 
 # found by reading sub-agent reports on the unchanged tree (each was a genuine defect, repaired or recorded)
-P("explode_select_exploded", lambda t: (t.df[["a", "u"]].assign(L=t.df.u.map(lambda v: [v, v + 1], meta=("u", object))) if t.lazy else t.df[["a", "u"]].assign(L=t.df.u.map(lambda v: [v, v + 1]))).explode("L")["L"])
-P("explode_select_other", lambda t: (t.df[["a", "u"]].assign(L=t.df.u.map(lambda v: [v, v + 1], meta=("u", object))) if t.lazy else t.df[["a", "u"]].assign(L=t.df.u.map(lambda v: [v, v + 1]))).explode("L")[["a"]])
+P("explode_select_exploded", lambda t: (t.df[["a", "u"]].assign(L=t.df.u.map(lambda v: [v, v + 1], meta=("u", object))) if t.lazy else t.df[["a", "u"]].assign(L=t.df.u.map(lambda v: [v, v + 1]))).explode("L")["L"], tags={"user_meta"}, only={"C01", "C04", "C02"})  # object column of lists: value checks only
+P("explode_select_other", lambda t: (t.df[["a", "u"]].assign(L=t.df.u.map(lambda v: [v, v + 1], meta=("u", object))) if t.lazy else t.df[["a", "u"]].assign(L=t.df.u.map(lambda v: [v, v + 1]))).explode("L")[["a"]], tags={"user_meta"}, only={"C01", "C04", "C02"})
 P("series_unnamed_drop_duplicates", lambda t: t.df.a.rename(None).drop_duplicates(), order_free=True, index_free=True)
 P("series_unnamed_unique", lambda t: t.df.a.rename(None).unique() if t.lazy else pd.Series(t.df.a.rename(None).unique()), order_free=True, index_free=True)
 P("sort_presorted_ignore_index", lambda t: t.df.sort_values("u", ignore_index=True), tags={"sort"})
-P("sort_ignore_index_cols", lambda t: t.df.sort_values("b", ignore_index=True)[["u", "b"]], tags={"sort"})
-P("sort_ignore_index_head", lambda t: t.df.sort_values("b", ignore_index=True).head(3, compute=False) if t.lazy else t.df.sort_values("b", ignore_index=True).head(3), tags={"sort", "head"})
-P("sort_ignore_index_tail", lambda t: t.df.sort_values("b", ignore_index=True).tail(3, compute=False) if t.lazy else t.df.sort_values("b", ignore_index=True).tail(3), tags={"sort", "head"})
+P("sort_ignore_index_cols", lambda t: t.df.assign(k=(t.df.u * 7) % 23).sort_values("k", ignore_index=True)[["u", "k"]], tags={"sort"})
+P("sort_ignore_index_head", lambda t: t.df.assign(k=(t.df.u * 7) % 23).sort_values("k", ignore_index=True).head(3, compute=False) if t.lazy else t.df.assign(k=(t.df.u * 7) % 23).sort_values("k", ignore_index=True).head(3), tags={"sort", "head"})
+P("sort_ignore_index_tail", lambda t: t.df.assign(k=(t.df.u * 7) % 23).sort_values("k", ignore_index=True).tail(3, compute=False) if t.lazy else t.df.assign(k=(t.df.u * 7) % 23).sort_values("k", ignore_index=True).tail(3), tags={"sort", "head"})
 P("sample_half", lambda t: t.df.sample(frac=0.5, random_state=7), dask_only=True)
 P("sample_half_cols", lambda t: t.df.sample(frac=0.5, random_state=7)[["u"]], dask_only=True)
 P("random_split_first", lambda t: t.df.random_split([0.5, 0.5], random_state=3)[0] if t.lazy else t.df, dask_only=True)
